@@ -819,7 +819,9 @@ fn mode_intern(f: &[&str]) -> String {
                         let (k, v) = kv.split_once(':').unwrap();
                         let (k, v): (u32, u32) = (k.parse().unwrap(), v.parse().unwrap());
                         pairs.push((k, v));
-                        refs.push([si.intern(format!("s{k}")), si.intern(format!("s{v}"))]);
+                        // 0 names the empty string (it occupies no bytes: the next new string shares its address)
+                        let name = |n: u32| if n == 0 { String::new() } else { format!("s{n}") };
+                        refs.push([si.intern(name(k)), si.intern(name(v))]);
                     }
                 }
                 let handle = mi.intern(&refs);
@@ -869,6 +871,56 @@ fn mode_intern(f: &[&str]) -> String {
                 ids.iter().map(|x| x.to_string()).collect::<Vec<_>>().join(","),
                 bad
             ));
+        }
+        "abspath" => {
+            // ops: a<cwd hex>:<path hex> -- the interner of absolute paths (directory + possibly relative path).
+            // Output per op: index of the first op whose handle is == this one, and the text get() returns now; at the
+            // end every handle is read back once more (a later operation must not change what an earlier handle names).
+            let mut ai = az65::intern::AbsPathInterner::new();
+            let mut handles = Vec::new();
+            let mut first: Vec<String> = Vec::new();
+            for op in f[1].split(',') {
+                if op.is_empty() {
+                    continue;
+                }
+                let (c, p) = op[1..].split_once(':').unwrap();
+                let cwd = unhex(c);
+                let path = unhex(p);
+                let cwd = Path::new(<std::ffi::OsStr as std::os::unix::ffi::OsStrExt>::from_bytes(&cwd)).to_path_buf();
+                let path = Path::new(<std::ffi::OsStr as std::os::unix::ffi::OsStrExt>::from_bytes(&path)).to_path_buf();
+                let h = ai.intern(&cwd, &path);
+                let id = handles.iter().position(|x| *x == h).unwrap_or(handles.len());
+                handles.push(h);
+                let text = ai
+                    .get(h)
+                    .map(|p| hex(<std::ffi::OsStr as std::os::unix::ffi::OsStrExt>::as_bytes(p.as_os_str())))
+                    .unwrap_or_else(|| "NONE".into());
+                first.push(format!("{id}={text}"));
+            }
+            let later: Vec<String> = handles
+                .iter()
+                .map(|h| {
+                    ai.get(*h)
+                        .map(|p| hex(<std::ffi::OsStr as std::os::unix::ffi::OsStrExt>::as_bytes(p.as_os_str())))
+                        .unwrap_or_else(|| "NONE".into())
+                })
+                .collect();
+            let mut eqbad = 0usize;
+            for (k, h) in handles.iter().enumerate() {
+                for (j, t) in later.iter().enumerate() {
+                    if t == "NONE" {
+                        continue;
+                    }
+                    let tb = unhex(t);
+                    let pj = Path::new(<std::ffi::OsStr as std::os::unix::ffi::OsStrExt>::from_bytes(&tb));
+                    let want = later[k] == *t;
+                    if ai.eq(pj, *h) != Some(want) || ai.eq_some(pj, *h) != want {
+                        eqbad += 1;
+                    }
+                    let _ = j;
+                }
+            }
+            out.push(format!("ABS {} LATER {} EQBAD {}", first.join(","), later.join(","), eqbad));
         }
         _ => out.push("BADKIND".into()),
     }
